@@ -40,7 +40,8 @@ def instances(quick):
         }
         mus = {1: [[0, 1], [1, 1]], 2: [[0, 1], [1, 2], [1, 1]], 3: [[0, 1], [1, 3], [2, 3], [1, 1]], 4: [[0, 1], [1, 4], [2, 4], [3, 4], [1, 1]]}
         pis = {'below': [0, 1, 2] if ny >= 2 else [0, 1], 'odd': [0, 3, 6], 'even': list(range(0, 2 * ny + 1, 2)) if ny >= 1 else [0, 2],
-               'beyond': [0, 2 * ny + 1, 4 * ny + 2]}
+               'beyond': [0, 2 * ny + 1, 4 * ny + 2],
+               'fine': list(range(0, 2 * ny + 3))}          # pi bins half a fundamental wide: several edges between consecutive kz planes
         k = 0
         for fname, H in fam.items():
             H = sorted(set(H))
